@@ -4,14 +4,14 @@ from hypothesis import strategies as st
 from trie import HexaryTrie
 
 from ..faults import FaultDB, InjectedFault
-from ..hexcommon import histories, simple_ops
+from ..hexcommon import histories, mirror_fragments, simple_ops, twin_fragments
 from ..hexrun import apply_simple, check_prune, norm_counts, play, run_history
 from ..ref.mpt import RefTrie
 from ..util import Abort, Info, cm_enter, cm_exit, expect, expect_eq, impl
 
 ID = "C05"
 LEVEL = "fault_enumeration"
-BUDGET = {"quick": 1600, "thorough": 300000}
+BUDGET = {"quick": 1200, "thorough": 300000}
 RULE = (
     "case = (prune flag, prior history incl. earlier batches, batch op list, follow-up "
     "history). Each case is executed once per EXIT of the batch, all enumerated: normal "
@@ -44,8 +44,10 @@ def strategy(tier):
             "prune": st.booleans(),
             "prior": histories(tier, max_ops=25 if big else 10, batches=True, aborts=True,
                                mirror_weight=2),
-            "batch": st.lists(simple_ops(tier, near_weight=4), min_size=1,
-                              max_size=16 if big else 8),
+            # the batch itself also builds identical sub-tries (shared nodes) and takes them apart
+            "batch": st.lists(st.one_of([simple_ops(tier, near_weight=4)] * 6 + [mirror_fragments(), twin_fragments()]),
+                              min_size=1, max_size=16 if big else 8).map(
+                                  lambda fr: [o for f in fr for o in (f if isinstance(f, list) else [f])][:24]),
             "rest": histories(tier, max_ops=12 if big else 6, batches=True, aborts=True,
                               near_weight=4),
             "exc": st.integers(0, 2),
